@@ -258,6 +258,10 @@ package eventbus
 //@   requires bus != nil && BusInv(bus) && eventType != nil
 //@   ensures [functional] result == bus.shards[shardIdx(eventType)] && result != nil
 
+//@ def idMap(x, k) k
+//@ def kpStep(kp, i, found, m) ite(found && kp[m] > i, kp[m] - 1, kp[m])
+//@ def koStep(ko, i, found, k) ite(found && k >= i, ko[k + 1], ko[k])
+//@ def rmAlive(m) (forall q int :: {onceHandlersToRemove[q]} 0 <= q && q <= rangeindex__2 ==> acqat(shard.handlers[eventType], m) != onceHandlersToRemove[q])
 //@ func PublishContext
 //@   props C01 C04 C05 C06 C08 C20 C09
 //@   requires bus != nil && ctx != nil && BusInv(bus) && PersistInv(bus)
@@ -319,11 +323,17 @@ package eventbus
 //@        (forall k int :: {handlers__2[k]} 0 <= k && k < len(handlers__2) ==> handlers__2[k] == ite(k < i, iterold(handlers__2[k]), iterold(handlers__2[k + 1])))
 //@   loop 2 iter [rm.step.inv] len(handlers__2) == iterold(len(handlers__2)) - 1 ==>
 //@        (forall k int :: {iterold(handlers__2[k])} 0 <= k && k < iterold(len(handlers__2)) && k != i ==> iterold(handlers__2[k]) == handlers__2[ite(k < i, k, k - 1)])
+// Ghost position maps of the retirement loop: kp[m] = where element m of the list as it
+// was at Lock is now; ko[k] = which element of that list is now at position k.
+//@   loop 2 ghost kp intmap := arrayOf(idMap, int, 0)
+//@   loop 2 ghoststep kp := arrayOf(kpStep, int, kp, i, len(handlers__2) == iterold(len(handlers__2)) - 1)
+//@   loop 2 ghost ko intmap := arrayOf(idMap, int, 0)
+//@   loop 2 ghoststep ko := arrayOf(koStep, int, ko, i, len(handlers__2) == iterold(len(handlers__2)) - 1)
 //@   loop 2 invariant [C01.rm.subset] {C01,C02} forall k int :: {handlers__2[k]} 0 <= k && k < len(handlers__2) ==>
-//@        (exists m int :: 0 <= m && m < len(acq(shard.handlers[eventType])) && handlers__2[k] == acqat(shard.handlers[eventType], m))
-//@   loop 2 invariant [C01.rm.kept] {C01,C02} forall m int :: {acqat(shard.handlers[eventType], m)} 0 <= m && m < len(acq(shard.handlers[eventType])) &&
-//@        (forall q int :: {onceHandlersToRemove[q]} 0 <= q && q <= rangeindex__2 ==> acqat(shard.handlers[eventType], m) != onceHandlersToRemove[q]) ==>
-//@        (exists k int :: 0 <= k && k < len(handlers__2) && handlers__2[k] == acqat(shard.handlers[eventType], m))
+//@        0 <= ko[k] && ko[k] < len(acq(shard.handlers[eventType])) && handlers__2[k] == acqat(shard.handlers[eventType], ko[k]) && (k > 0 ==> ko[k - 1] < ko[k])
+//@   loop 2 invariant [C01.rm.kept] {C01,C02} forall m int :: {acqat(shard.handlers[eventType], m)} 0 <= m && m < len(acq(shard.handlers[eventType])) && rmAlive(m) ==>
+//@        0 <= kp[m] && kp[m] < len(handlers__2) && handlers__2[kp[m]] == acqat(shard.handlers[eventType], m)
+//@   loop 2 invariant [C01.rm.order] {C01,C02} forall m1 int, m2 int :: {kp[m1], kp[m2]} 0 <= m1 && m1 < m2 && m2 < len(acq(shard.handlers[eventType])) && rmAlive(m1) && rmAlive(m2) ==> kp[m1] < kp[m2]
 //@   loop 2 invariant [rm.R.stable] seqeq(onceHandlersToRemove, loopentry(onceHandlersToRemove)) && sarr(onceHandlersToRemove) != sarr(handlers__2)
 //@   loop 3 invariant [idx3] rangeindex__3 < len(handlers__2) && -1 <= rangeindex__3
 //@   loop 3 invariant [rm.nomatch] forall k int :: {handlers__2[k]} 0 <= k && k <= rangeindex__3 ==> handlers__2[k] != onceHandler
@@ -331,9 +341,9 @@ package eventbus
 //@   ensures [C04.rm.section] {C04,C01} cnt(lockShard) == 1 + ite(len(onceHandlersToRemove) > 0, 1, 0) && cnt(unlockShard) == cnt(lockShard)
 //@   at unlock:shard.mu#W1 assert [C01.rm.kept.final] {C01,C02} forall m int :: {acqat(shard.handlers[eventType], m)} 0 <= m && m < len(acq(shard.handlers[eventType])) &&
 //@        (forall q int :: {onceHandlersToRemove[q]} 0 <= q && q < len(onceHandlersToRemove) ==> acqat(shard.handlers[eventType], m) != onceHandlersToRemove[q]) ==>
-//@        (exists k int :: 0 <= k && k < len(shard.handlers[eventType]) && shard.handlers[eventType][k] == acqat(shard.handlers[eventType], m))
+//@        0 <= kp[m] && kp[m] < len(shard.handlers[eventType]) && shard.handlers[eventType][kp[m]] == acqat(shard.handlers[eventType], m)
 //@   at unlock:shard.mu#W1 assert [C01.rm.subset.final] {C01,C02} forall k int :: {shard.handlers[eventType][k]} 0 <= k && k < len(shard.handlers[eventType]) ==>
-//@        (exists m int :: 0 <= m && m < len(acq(shard.handlers[eventType])) && shard.handlers[eventType][k] == acqat(shard.handlers[eventType], m))
+//@        0 <= ko[k] && ko[k] < len(acq(shard.handlers[eventType])) && shard.handlers[eventType][k] == acqat(shard.handlers[eventType], ko[k]) && (k > 0 ==> ko[k - 1] < ko[k])
 //@   at unlock:shard.mu#W1 assert [C04.rm.retired] {C04,C01} forall q int, k int :: {onceHandlersToRemove[q], shard.handlers[eventType][k]} 0 <= q && q < len(onceHandlersToRemove) && 0 <= k && k < len(shard.handlers[eventType]) ==>
 //@        shard.handlers[eventType][k] != onceHandlersToRemove[q]
 //@   at unlock:shard.mu#W1 assert [cs.rm.frame] {C01,C02} forall t type, k int :: {shard.handlers[t][k]} t != eventType && 0 <= k && k < len(acq(shard.handlers[t])) ==>
